@@ -51,10 +51,11 @@ type spec struct {
 	Sink      string `json:"sink"`
 	CloseMode string `json:"close"`
 	Total     int    `json:"total"`
-	Chunk     int    `json:"chunk"`         // pauses: events between two sleeps
-	HoldAt    int    `json:"hold_at_batch"` // -1: the sink never stalls
-	ShapeUS   int    `json:"shape_us"`      // full-fifo: delay between calling Close and reopening the sink
-	IdleUS    int    `json:"idle_us"`       // idle: delay between last delivery and Close
+	Chunk     int    `json:"chunk"`           // pauses: events between two sleeps
+	LatMS     int    `json:"sink_latency_ms"` // sink "slow": duration of every write call
+	HoldAt    int    `json:"hold_at_batch"`   // -1: the sink never stalls
+	ShapeUS   int    `json:"shape_us"`        // full-fifo: delay between calling Close and reopening the sink
+	IdleUS    int    `json:"idle_us"`         // idle: delay between last delivery and Close
 	Envs      int    `json:"envs"`
 	RandSeed  int64  `json:"rand_seed"`
 }
@@ -83,8 +84,11 @@ type sink struct {
 
 func newSink(sp spec) *sink {
 	s := &sink{holdAt: sp.HoldAt, release: make(chan struct{})}
-	if sp.Sink == "lat1ms" {
+	switch sp.Sink {
+	case "lat1ms":
 		s.lat = time.Millisecond
+	case "slow":
+		s.lat = time.Duration(sp.LatMS) * time.Millisecond
 	}
 	return s
 }
@@ -217,6 +221,25 @@ func makeSpec(c *vlib.Ctx, i int, combo int) spec {
 	return sp
 }
 
+func makeSlowSpec(c *vlib.Ctx, i int) spec {
+	r := c.SubRand(int64(3000000 + i))
+	sp := spec{Idx: 3000000 + i, Pattern: "slow-flush", Sink: "slow", CloseMode: "after-last", HoldAt: -1}
+	sp.P = []int{1, 4}[r.Intn(2)]
+	sp.LatMS = 600 + r.Intn(401)
+	// about 7 s worth of full batches, within 800..1200 events
+	sp.Total = 7000 * batchBound / sp.LatMS
+	sp.Total += r.Intn(41) - 20
+	if sp.Total < 800 {
+		sp.Total = 800
+	}
+	if sp.Total > 1200 {
+		sp.Total = 1200
+	}
+	sp.Envs = 1 + r.Intn(3)
+	sp.RandSeed = r.Int63()
+	return sp
+}
+
 func runC19() {
 	c := vlib.Start("C19")
 	defer c.Finish()
@@ -238,8 +261,11 @@ func runC19() {
 		}
 		// the schedule is not part of the witness: repeat the recorded run
 		reps := 10
-		if sp.Pattern == "micro" {
+		switch sp.Pattern {
+		case "micro":
 			reps = 100000
+		case "slow-flush":
+			reps = 2
 		}
 		id := c.Case(sp)
 		for k := 0; k < reps; k++ {
@@ -251,9 +277,9 @@ func runC19() {
 		return
 	}
 
-	n, microChunks, registryChunks := 60, 12, 18
+	n, microChunks, registryChunks, slowRuns := 60, 12, 18, 2
 	if !vlib.Quick(c) {
-		n, microChunks, registryChunks = 2000, 320, 320
+		n, microChunks, registryChunks, slowRuns = 2000, 320, 320, 16
 	}
 	registrySetup() // viper + log level, before any writer exists
 
@@ -264,6 +290,26 @@ func runC19() {
 		if !registryChunk(c, ch) {
 			break
 		}
+	}
+
+	// Slow-flush class ("every broker latency" x "every instant of shutdown"): a
+	// sink that needs 0.6-1.0 s per write call, a burst sized so that the flush at
+	// Close() takes ~7-8 s, Close() right after the last publish. Same oracle. The
+	// run sleeps most of the time, so it executes concurrently with the runs below.
+	var slowWG sync.WaitGroup
+	slo, shi := c.Slice(slowRuns)
+	for i := slo; i < shi; i++ {
+		sp := makeSlowSpec(c, i)
+		id := c.Case(sp)
+		slowWG.Add(1)
+		go func() {
+			defer slowWG.Done()
+			runOne(c, sp, id, 0)
+		}()
+	}
+	finish := func() {
+		slowWG.Wait()
+		checkLate(c)
 	}
 
 	// Every seed visits the 81 combinations (P x pattern x sink x close mode) in
@@ -278,7 +324,7 @@ func runC19() {
 			// two witnesses are enough, the rest of this batch is not explored
 			if closeHangs++; closeHangs >= 2 {
 				c.Count("runs_skipped_after_close_hangs", int64(hi-i-1))
-				checkLate(c)
+				finish()
 				return
 			}
 		}
@@ -304,7 +350,7 @@ chunks:
 			}
 		}
 	}
-	checkLate(c)
+	finish()
 }
 
 func checkLate(c *vlib.Ctx) {
@@ -322,11 +368,11 @@ func checkLate(c *vlib.Ctx) {
 // gateWitnessed: a GATE violation was recorded in this process. Every further
 // stalled-sink run would cost a full watchdog for the same class, so later runs
 // keep their sink open (counted, so that a held verdict can never rest on it).
-var gateWitnessed bool
+var gateWitnessed atomic.Bool
 
 // runOne executes one run; it returns false when Close() never returned.
 func runOne(c *vlib.Ctx, sp spec, id int64, sub int) bool {
-	if gateWitnessed && sp.HoldAt >= 0 {
+	if sp.HoldAt >= 0 && gateWitnessed.Load() {
 		sp.HoldAt = -1
 		c.Count("stalled_sink_runs_skipped_after_gate_violation", 1)
 	}
@@ -391,7 +437,7 @@ func runOne(c *vlib.Ctx, sp spec, id int64, sub int) bool {
 			if overCap {
 				class = "GATE/producers-wait-for-stalled-broker/over-channel-capacity"
 			}
-			gateWitnessed = true
+			gateWitnessed.Store(true)
 			blockedAt := atomic.LoadInt64(&returned)
 			s.open()
 			after, _ := waitDone(pubDone, progressPub)
@@ -413,8 +459,11 @@ func runOne(c *vlib.Ctx, sp spec, id int64, sub int) bool {
 	gatedOK := s.isHolding()
 	// micro runs have their own counters so that the floors on the main runs mean something
 	count := func(name string, n int64) {
-		if sp.Pattern == "micro" {
+		switch sp.Pattern {
+		case "micro":
 			name = "micro_" + name
+		case "slow-flush":
+			name = "slow_" + name
 		}
 		c.Count(name, n)
 	}
@@ -431,11 +480,14 @@ func runOne(c *vlib.Ctx, sp spec, id int64, sub int) bool {
 
 	var closeCall, closeRet int64
 	var qChan, qFifo int
+	var closeWall time.Duration // coverage evidence only, never an input of the oracle
 	closeDone := make(chan struct{})
 	doClose := func() {
 		qChan, qFifo = w.VerifQueued()
 		closeCall = vlib.Seq()
+		t0 := time.Now()
 		w.Close()
+		closeWall = time.Since(t0)
 		closeRet = vlib.Seq()
 		close(closeDone)
 	}
@@ -490,6 +542,9 @@ func runOne(c *vlib.Ctx, sp spec, id int64, sub int) bool {
 	lateList = append(lateList, lateWatch{s: s, n: len(batches), caseID: id, sp: sp})
 	lateMu.Unlock()
 
+	if closeWall > 5*time.Second {
+		count("closes_flush_over_5s", 1)
+	}
 	if qChan+qFifo > 0 {
 		count("closes_nonempty_fifo", 1)
 	}
